@@ -32,6 +32,9 @@ extern void*         gf_noscript_ptr;
 extern int            gf_cell_mode, gf_cell_valid;
 extern unsigned char* gf_cell_addr;
 extern unsigned char  gf_cell_val;
+extern unsigned char* gf_unif_ptr;
+extern unsigned char  gf_unif_val;
+extern unsigned long  gf_unif_n;
 extern int     verif_errno;
 #define GF_FILE(i) ((FILE*)&gf[i])
 #endif
